@@ -52,6 +52,7 @@ type scheduler struct {
 	byGID   atomic.Value // map[uint64]*role
 	points  map[string]bool
 	free    int32 // 1 = hooks pass through (drain / setup)
+	stray   int32 // 1 = an unregistered goroutine passed a rotation point
 	stuck   bool
 	trace   []string
 	settleT time.Duration
@@ -99,6 +100,10 @@ func (s *scheduler) hook(point string) {
 	}
 	r := s.byGID.Load().(map[uint64]*role)[curGID()]
 	if r == nil {
+		if strings.HasPrefix(point, "runRotate.") || strings.HasPrefix(point, "mutateState.") {
+			// a goroutine the scheduler does not control is rotating: the case is void
+			atomic.StoreInt32(&s.stray, 1)
+		}
 		return
 	}
 	if appendPoints[point] && !r.storing {
